@@ -146,7 +146,7 @@ pub fn gen_dispatch_case(g: &mut Gen, max_trains: usize, o: &CorridorOpts) -> Di
         let east = g.bool(0.5);
         let mut branch = net.branch.is_some() && g.bool(0.5);
         let _ = i;
-        // 8 % of the trains: intermediate destination on the main line, at least 9 km apart
+        // 8 % of the trains: intermediate origin and / or destination on the main line, at least 9 km apart
         // (shorter routes only reproduce the look-ahead finding of C15); the origin stage must
         // hold the train
         let (mut from, mut to) = (None, None);
@@ -159,14 +159,8 @@ pub fn gen_dispatch_case(g: &mut Gen, max_trains: usize, o: &CorridorOpts) -> Di
             let (o_st, d_st) = if east { (lo, hi) } else { (hi, lo) };
             let o_len = net.stages[o_st].main.length.min(net.stages[o_st].side.as_ref().map(|x| x.length).unwrap_or(f64::INFINITY));
             if lo < hi && dist >= 9000.0 && o_len >= t.length() + 200.0 && o_len >= 2500.0 {
-                // intermediate origins are generated only when asked for (VERIF_MID_ORIGINS): a
-                // train that materialises on a running line is outside what the dispatcher
-                // models (see DESIGN §6)
-                from = if o_st == 0 || o_st == nm - 1 || std::env::var("VERIF_MID_ORIGINS").is_err() { None } else { Some(o_st) };
-                if from.is_none() && o_st != 0 && o_st != nm - 1 {
-                    // keep the destination, start from the terminal
-                }
-                to = if d_st == 0 || d_st == nm - 1 { None } else { Some(d_st) };
+                from = if o_st == 0 || o_st == nm - 1 || std::env::var("VERIF_NO_MID_ORIGINS").is_ok() { None } else { Some(o_st) };
+                to = if d_st == 0 || d_st == nm - 1 || std::env::var("VERIF_NO_MID_DEST").is_ok() { None } else { Some(d_st) };
                 if to.is_some() || (!east && from.is_some()) {
                     // the branch terminal is only an eastern end point
                     branch = branch && (if east { to.is_none() } else { from.is_none() });
